@@ -39,6 +39,12 @@ def run(ctx):
         ctx.notes.append("race detector run (%s): %d reports" % (tags, n))
         if n == 0 and "FAIL" in rep["stdout"].splitlines()[-1:]:
             raise vlib.MachineryError("race run failed without a race report:\n" + rep["stdout"][-1500:])
+    # the pooled ring buffers are shared by all loops: the pool's self-calibration under the race detector
+    rep = vlib.go_harness(ctx, "pkg/pool/ringbuffer", "TestVerifRingPoolRace", name="race-ringpool", race=True, timeout=900, allow_fail=True,
+                          env={"VERIF_POOL_ROUNDS": 60000 if ctx.thorough else 30000})
+    vlib.absorb(ctx, rep, "race-ringpool")
+    n = races(ctx, rep["stdout"], "ring-buffer pool")
+    ctx.notes.append("race detector run (ring-buffer pool): %d reports" % n)
     ctx.assumptions += system.SYS_ASSUME + ["race freedom: adjunct oracle (Go race detector on the schedules the harness provokes); the recorder is off in those runs because its lock would order all hooked goroutines",
                                             "Engine.Register with the RoundRobin balancer is documented as racy and is not exercised"]
     return vlib.finish(ctx, "model_checking",
